@@ -130,6 +130,16 @@ impl<'a> Parser<'a> {
 
     /// Parses the input into a statement.
     pub fn parse(&mut self) -> Result<Statement> {
+        let statement = self.parse_statement()?;
+        // The whole text must be one statement: anything left over (a second query after
+        // UNION, stray tokens) would otherwise be ignored without a word.
+        if self.current.kind != TokenKind::Eof {
+            return Err(self.error("Unexpected input after the end of the statement"));
+        }
+        Ok(statement)
+    }
+
+    fn parse_statement(&mut self) -> Result<Statement> {
         match self.current.kind {
             TokenKind::Match | TokenKind::Optional | TokenKind::Unwind | TokenKind::Merge => {
                 self.parse_query().map(Statement::Query)
